@@ -60,6 +60,11 @@ class FaultyRaw(io.RawIOBase):
     def writable(self):
         return True
 
+    def fileno(self):
+        if self.fd is None:
+            raise io.UnsupportedOperation('fileno')
+        return self.fd
+
     def write(self, b):
         if self._done:
             raise ValueError('write to closed file')
@@ -117,8 +122,9 @@ def make_open(world, real_open=open):
     return fake_open
 
 
-def make_stdout(world, name='<stdout>', line_buffering=False, buffer_size=8192):
-    raw = FaultyRaw(world, name, None)
+def make_stdout(world, name='<stdout>', line_buffering=False, buffer_size=8192, backing_path=None):
+    """backing_path: a scratch file that gives the stream a real descriptor (code that calls fileno()/dup2 on stdout works)"""
+    raw = FaultyRaw(world, name, backing_path)
     return io.TextIOWrapper(io.BufferedWriter(raw, buffer_size=buffer_size), encoding='utf-8', line_buffering=line_buffering)
 
 
